@@ -265,6 +265,7 @@ type c12Result struct {
 	MinMargin  time.Duration // min over judged pairs of (tp - hturn) - (T - slack)
 	MaxGap     time.Duration // max (th - runtime stamp)
 	Literal    int           // passivations with a handler entered less than T-100ms before
+	Stale      int           // messages whose runtime activity stamp was older than their turn-entry stamp
 	Notes      []string
 	Viol       []verifrt.Violation
 	Inconc     string
@@ -589,10 +590,18 @@ func c12Run(t *testing.T, sys *actorSystem, sc c12Scenario) (res c12Result) {
 					if h.ThW > p.DeadlineW || h.HturnW == 0 {
 						continue
 					}
-					m := (p.DeadlineW - h.HturnW) - bound
-					if time.Duration(m) < res.MinMargin {
-						res.MinMargin = time.Duration(m)
+					// the runtime stamps activity with the time it read when the turn began; when a
+					// turn is re-entered after a reclaim that time is not read again, so the stamp
+					// the runtime itself recorded (sampled in the handler) can be older than the
+					// turn-entry hook stamp. The deadline is owed to the older of the two.
+					eff := h.HturnW
+					if h.Rt != 0 && h.Rt < eff {
+						eff = h.Rt
+						if h.HturnW-h.Rt > int64(time.Millisecond) {
+							res.Stale++
+						}
 					}
+					m := (p.DeadlineW - eff) - bound
 					if m < 0 {
 						viol("passivated-within-timeout:deadline-arithmetic", map[string]any{
 							"timeout": T.String(), "message_id": h.ID, "turn_entry_wall_ns": h.HturnW, "handler_entry_wall_ns": h.ThW, "deadline_wall_ns": p.DeadlineW,
@@ -631,12 +640,22 @@ func c12Run(t *testing.T, sys *actorSystem, sc c12Scenario) (res c12Result) {
 						earlier += e.Dwell
 					}
 				}
-				if sc.Kind == "long-turn" && earlier >= -marginLiteral {
+				staleBy := int64(0)
+				if h.Rt != 0 {
+					staleBy = h.ThW - h.Rt
+				}
+				detail["runtime_activity_stamp_older_than_handler_entry_by"] = time.Duration(staleBy).String()
+				switch {
+				case sc.Kind == "long-turn" && earlier >= -marginLiteral:
 					if c12JudgeLongTurnLiterally {
 						detail["handler_time_earlier_in_turn"] = time.Duration(earlier).String()
 						viol("passivated-while-busy:long-turn", detail)
 					}
-				} else {
+				case staleBy >= -marginLiteral && p.DeadlineW != 0 && h.ThW <= p.DeadlineW:
+					// the message was handled before the deadline expired, but the activity stamp
+					// the runtime recorded for it was that much older than the handling
+					viol("message-handled-then-passivated:stale-turn-stamp", detail)
+				default:
 					viol("message-handled-then-passivated:decision-not-atomic", detail)
 				}
 				break
@@ -723,6 +742,7 @@ func TestVerif_C12(t *testing.T) {
 			r.Count("passivations_observed", int64(res.Passivated))
 			r.Count("poststops_observed", int64(res.Stops))
 			r.Count("passivations_right_after_a_handled_message", int64(res.Literal))
+			r.Count("stale_turn_stamps_seen", int64(res.Stale))
 			if res.MinMargin < time.Hour {
 				r.Max("max_runtime_stamp_to_handler_gap_us", int64(res.MaxGap/time.Microsecond))
 				if res.MinMargin < 20*time.Millisecond {
